@@ -121,6 +121,14 @@ func cmdCheck(args []string) int {
 		}
 	}
 	t1 := time.Now()
+	if *prop == "C13" || *prop == "C14" {
+		// the SQL constants: parameters write the columns of the same name, selects only name written columns
+		probs := sqlColumnsCheck(w)
+		for i, pr := range probs {
+			x.obls = append(x.obls, &Obligation{Name: fmt.Sprintf("sql#columns[%d]", i+1), Func: "sql constants", Kind: "sql", Failed: pr, Props: []string{*prop}})
+		}
+		x.assumed["storage: SQLite stores the value bound to parameter $x of an INSERT/UPDATE in column x and returns it unchanged from a SELECT of column x of that row (the parameter/column correspondence of the SQL constants is checked syntactically on every run)"] = true
+	}
 	for _, k := range keys {
 		x.verifyFunction(db.contracts[k])
 	}
@@ -417,7 +425,7 @@ func (x *Exec) verifyChainState(c *ChainDef, pkgName, f string) {
 		args = append(args, x.freshVal(st, "arg_"+p.Name(), p.Type()))
 	}
 	entry := st.clone()
-	env := x.specEnvFor(conF, fnF.Signature, fnF.Pkg.Pkg, args, st, entry)
+	env := x.specEnvFor(conF, fnF.Signature, fnTypesPkg(fnF), args, st, entry)
 	var pres []*Term
 	for _, r := range conF.Requires {
 		pres = append(pres, env.boolean(r.Expr))
@@ -472,7 +480,7 @@ func (x *Exec) verifyChainState(c *ChainDef, pkgName, f string) {
 			continue
 		}
 		argsG := []Value{recv, {T: Upd(out, fNext, NilFn())}}
-		envG := x.specEnvFor(conG, fnG.Signature, fnG.Pkg.Pkg, argsG, gs, gs)
+		envG := x.specEnvFor(conG, fnG.Signature, fnTypesPkg(fnG), argsG, gs, gs)
 		for i, r := range conG.Requires {
 			lab := r.Label
 			if lab == "" {
